@@ -25,28 +25,35 @@ def gen_prog(rng):
     cls_ids = [0, 2, 3] + w.user_ids()
     npos = rng.choice([1, 1, 2])
     defs = []
+    utab = {}
     ident = 1
     for i in range(rng.randint(2, 6)):
         pos = []
         for _ in range(npos):
             r = rng.random()
-            if r < 0.35:
+            if r < 0.15:
+                # a value-dependent type whose BOUND is a class predicate: Dependent[class_check(p), q]
+                pid = rng.randrange(npreds)
+                fid = 10 + len(utab)
+                utab[str(fid)] = []          # q is false on the corpus instances (encoded without identity): only the bound matters here
+                pos.append([9, fid, [7, pid, pid]])
+            elif r < 0.35:
                 pos.append([7, ident, rng.randrange(npreds)]); ident += 1
             elif r < 0.45:
                 pos.append([4, ident, rng.choice(cls_ids)]); ident += 1
             else:
                 pos.append([0, rng.choice(cls_ids)])
         defs.append({"id": i, "pos": pos, "npos_req": npos, "kw": [], "prio": rng.choice([0, 0, 1]),
-                     "body": rng.choice(["ret", "ret", "next", "rec"])})
+                     "body": rng.choice(["ret", "ret", "next", "rec", "nexto"])})
     inst = [c for c in cls_ids if w.instantiable(c)]
     calls = [{"pos": [rng.choice(inst) for _ in range(npos)], "kw": {}} for _ in range(8)]
     seq = [rng.randrange(len(calls)) for _ in range(rng.randint(10, 30))]
-    return {"spec": spec, "preds": preds, "defs": defs, "calls": calls, "seq": seq}
+    return {"spec": spec, "preds": preds, "defs": defs, "calls": calls, "seq": seq, "utab": utab}
 
 
 def check(ctx, prog, stats):
     w = world_from(prog["spec"], prog["preds"])
-    b = progs.Built(w, prog["defs"])
+    b = progs.Built(w, prog["defs"], utab=prog.get("utab"))
     counter = w.pred_calls
     ok = {}
     # warm-up
@@ -74,6 +81,9 @@ def check(ctx, prog, stats):
         b.call([w.instance(c) for c in call["pos"]])
     stats["recomputed_after_registration"] += int(counter[0] != before)
     # table-level agreement with the state machine's resolved flag
+    if prog.get("utab"):
+        stats["programs"] += 1
+        return
     mms = R.model_defs(prog["defs"])
     ops = [[0, -1, R.call_key(c)] for c in prog["calls"]] + [[0, -1, R.call_key(prog["calls"][i])] for i in prog["seq"]]
     res = model.run_cases([[14, w.encode(), mms, ops]])[0]
@@ -114,7 +124,7 @@ def run(ctx):
 def replay(ctx, payload):
     case = payload["case"]
     w = world_from(case["spec"], case["preds"])
-    b = progs.Built(w, case["defs"])
+    b = progs.Built(w, case["defs"], utab=case.get("utab"))
     for call in case["calls"]:
         b.call([w.instance(c) for c in call["pos"]])
     c0 = w.pred_calls[0]
